@@ -585,8 +585,10 @@ def check(mod, prop, tier, seed, t0, workdir, args):
         "violations": n_viol,
     }
     if not args.replay:
-        os.makedirs(os.path.join(ROOT, "evidence"), exist_ok=True)
-        json.dump(evidence, open(os.path.join(ROOT, "evidence", f"{prop}.json"), "w"), indent=1, default=str)
+        # evidence/ describes /repo itself; runs against another tree (VERIF_REPO, used to try seeded changes) write elsewhere
+        evdir = os.path.join(ROOT, "evidence") if os.path.realpath(REPO) == "/repo" else os.path.join(ROOT, ".work", "alt-evidence")
+        os.makedirs(evdir, exist_ok=True)
+        json.dump(evidence, open(os.path.join(evdir, f"{prop}.json"), "w"), indent=1, default=str)
     log(f"[{prop}] {'OK' if exit_code == 0 else 'FAIL'} tier={tier} seed={seed} wall={time.time() - t0:.1f}s")
     return exit_code
 
